@@ -38,6 +38,9 @@ CHECKS = {
     "C16": ("finite-map extraction and decision tables by abstract interpretation; E6 float-exactness rule; table agreement",
             "Weekday conversions/arithmetic as finite maps equal to arithmetic mod 7 with no reachable panic for any u8/i8; 49-cell difference table; names round-trip; weekday index derived from the integer count (floor(count/1d) mod 7, index 0 = Monday = 1900-01-01); next/previous move 1..7 days per the 49-cell table.",
             "3.C16"),
+    "C06": ("table agreement with the shipped data files + decision-table extraction by abstract interpretation + scale-domain (E5) and float-exactness (E6) rules",
+            "Built-in table equals leap-seconds.list and naif0012 row for row; look-up returns the last eligible row at or before the count (all 43 intervals, both flag values); conversions pass iers_only = true; UTC->TAI adds / TAI->UTC subtracts; look-up key domain; exact threshold comparison; file provider shape.",
+            "3.C06"),
 }
 
 NOT_YET = {}
